@@ -327,8 +327,28 @@ fn do_fit(ctx: &mut Ctx, sub: &str, c: &FitCase, truncate_gen: bool) -> Result<F
     }
     ctx.sample(sub, || json!({"case": c, "x": x, "y": y, "effective_degree": sp.d, "kappa": sp.kappa}));
     let d = sp.d;
+    // One case in three re-uses a regressor that has already been fitted to other valid data (responses of a
+    // vastly different scale, or fewer points): the fit must depend on the data it is given, not on what the
+    // object held before.
+    let reuse = Hx::new().json(c).u(77).finish() % 3;
+    if reuse != 0 {
+        ctx.label(sub, if reuse == 1 { "regressor re-used after a fit at scale 2^40" } else { "regressor re-used after a fit on the first d+1 points" });
+    }
     let fit = catch(|| {
         let mut p = PolynomialRegressor::new(d);
+        if reuse == 1 {
+            let big: Vec<f64> = y.iter().map(|v| v * 2f64.powi(40) + 2f64.powi(40)).collect();
+            p.fit(&x, &big);
+        } else if reuse == 2 && x.len() > d + 1 {
+            let mut k = d + 1;
+            // the first d+1 points may not have d+1 distinct abscissae: extend until the short fit is well posed
+            while k < x.len() && effective_degree(&x[..k], d).d < d {
+                k += 1;
+            }
+            if effective_degree(&x[..k], d).d == d {
+                p.fit(&x[..k], &y[..k]);
+            }
+        }
         p.fit(&x, &y);
         p
     });
